@@ -249,12 +249,25 @@ type ReadStep struct {
 	Zero bool `json:"zero,omitempty"` // return (0, nil)
 	EOF  bool `json:"eof,omitempty"`  // if this read hands over the last byte, return io.EOF with it
 	Err  bool `json:"err,omitempty"`  // return the injected error (with N bytes of data if N>0)
+	Wrap bool `json:"wrap,omitempty"` // the injected error wraps io.EOF (errors.Is(err, io.EOF) holds, err != io.EOF)
 }
 
 // ErrInjected is the base of every injected read error.
-type InjectedError struct{ ID int }
+type InjectedError struct {
+	ID   int
+	Wrap bool
+}
 
 func (e *InjectedError) Error() string { return fmt.Sprintf("simio: injected read error #%d", e.ID) }
+
+// Unwrap makes a "wrapping" injected error satisfy errors.Is(err, io.EOF): code that
+// classifies errors with errors.Is must still treat it as a failure, not as the end of input.
+func (e *InjectedError) Unwrap() error {
+	if e.Wrap {
+		return io.EOF
+	}
+	return nil
+}
 
 type FileCfg struct {
 	Name                          string
@@ -379,6 +392,7 @@ func (f *SimFile) Read(p []byte) (int, error) {
 		}
 	}
 	if st.Err {
+		f.Injected.Wrap = st.Wrap
 		f.sawErr = true
 		f.ErrDelivered = true
 		f.ErrDeliveredAt = f.Reads + 1
